@@ -393,17 +393,24 @@ def suite_sizes(tier, seed):
                                   u32 - 16, u32 - 8, u32 - 7, u32 - 1, u32} - {-1})
                 anchors = [x for x in anchors if 0 <= x <= u32]
                 for sz in anchors:
+                    sz_ops = []
                     for (k, s, a) in [("ab", 0, 1), ("aa", 8, 8), ("aa", 16, 16), ("aa", 1, 1), ("aa", 3, 1), ("aa", 0, 8)]:
                         be = backends[n % len(backends)]
                         n += 1
-                        owned = n % 3 == 0     # the *_owned entry points have their own wrappers
-                        op = {"k": k, "n": sz, "o": owned} if k == "ab" else {"k": k, "s": s, "a": a, "n": sz, "o": owned}
+                        # the *_owned entry points have their own wrappers: both for the sizes around 2^31 / 2^32, else alternating
+                        for owned in ([False, True] if sz >= (1 << 31) - 1 else [(n + si) % 2 == 0]):
+                            op = {"k": k, "n": sz, "o": owned} if k == "ab" else {"k": k, "s": s, "a": a, "n": sz, "o": owned}
+                            sz_ops.append(op)
+                    for oi, op in enumerate(sz_ops):
+                        k, s = op["k"], op.get("s", 0)
+                        n += 1
+                        be = backends[n % len(backends)]
                         ops = list(shape) + [op, AB(8), {"k": "at", "s": 8, "a": 8, "o": False}]
                         cfg = cfg_for(layout, kind, be, cap=cap)
                         # the retry budget of the slow path (Options::with_maximum_retries, any u8): a failing request is
                         # retried that many times and must then report the same clean error
                         cfg["retries"] = [5, 0, 1, 255][n % 4]
-                        drivers.append({"id": "sz:%s:%s:%d:%s:%d:%d" % (layout, kind, si, k, s, sz), "cfg": cfg, "ops": ops})
+                        drivers.append({"id": "sz:%s:%s:%d:%s:%d:%d:%d" % (layout, kind, si, k, s, sz, oi), "cfg": cfg, "ops": ops})
     # the last bytes of the arena: the cursor k bytes below capacities that are and are not multiples of the alignment, then a
     # request whose padding decides whether it still fits
     for layout in ["plain", "unify"]:
